@@ -72,7 +72,7 @@ class PyFileSearcher(AbstractSearcher):
             except IOError:
                 raise error.PySmiSearcherError('failure opening compiled file %s: %s' % (f, sys.exc_info()[1]),
                                                searcher=self)
-            if pyData[:4] == PY_MAGIC_NUMBER:
+            if len(pyData) == 8 and pyData[:4] == PY_MAGIC_NUMBER:
                 pyData = pyData[4:]
                 pyTime = struct.unpack('<L', pyData[:4])[0]
                 debug.logger & debug.flagSearcher and debug.logger(
